@@ -13,7 +13,7 @@ import Redress.Props.C07Breaker
 #print axioms Redress.Breaker.after_close_single_failure_does_not_trip
 #print axioms Redress.Breaker.probe_failure_reopens_fresh
 #print axioms Redress.Breaker.probe_cancel_frees_slot
-#print axioms Redress.Breaker.half_open_free_slot_admits
+#print axioms Redress.Breaker.half_open_free_slot_allows
 #print axioms Redress.Breaker.probeInv_step
 #print axioms Redress.Breaker.disciplined_cons
 #print axioms Redress.Breaker.noStale_cons
